@@ -480,6 +480,7 @@ func (d depLang) build() (valid *rx, malformed map[string]*rx) {
 		"name-after-substvar":    rCat(subst, Wp, NAME, rStar(any)),
 		"clause-after-substvar":  rCat(subst, Ws, rAlt(ver, archs, prof), rStar(any)),
 		"double-negated-profile": rCat(NAME, Wp, d.lit("<"), Ws, d.lit("!!"), rStar(any)),
+		"substvar-without-brace": rCat(d.lit("$"), d.anyExcept("{"), rStar(any)),
 	}
 	return field, mal
 }
@@ -503,11 +504,11 @@ func (d depLang) badOp() *rx {
 }
 
 func checkC04(p *Prog, rp *Report) {
-	rp.Explanation = "dependency.Parse is interpreted abstractly on a lazily revealed input string of unbounded length (bytes abstracted to the classes induced by every constant the parser compares with; names kept as empty/non-empty; slices as empty/non-empty; the cursor relative): the reachable states form a finite transition system. C04-LANG: on that automaton, every field of a conservative Policy 7.1 grammar is accepted on all runs (inclusion), and twelve malformed classes (unterminated '[', '(', '${', '<'; mixed negation; second version / architecture clause; unknown operator; two names without separator; name or clause after a substvar; '!!') intersect the accepted language in nothing; failures come with a shortest witness string. C04-TOKENS: no blank byte (space, tab, CR, LF) is ever appended to a name, qualifier, version number, architecture or profile name; no architecture with an empty name, no empty profile, profile group or relation is stored. C04-OPS: the operators that can be stored are exactly = << <= >= >>, the set SatisfiedBy decides. C04-ERR: every error in the parser's call tree is returned; Parse returns no value with an error. C04-TOTAL: no panic and no loop that stops consuming input is reachable."
+	rp.Explanation = "dependency.Parse is interpreted abstractly on a lazily revealed input string of unbounded length (bytes abstracted to the classes induced by every constant the parser compares with; names kept as empty/non-empty; slices as empty/non-empty; the cursor relative): the reachable states form a finite transition system. C04-LANG: on that automaton, every field of a conservative Policy 7.1 grammar is accepted on all runs (inclusion), and thirteen malformed classes (unterminated '[', '(', '${', '<'; mixed negation; second version / architecture clause; unknown operator; two names without separator; name or clause after a substvar; '!!'; '$' not followed by '{') intersect the accepted language in nothing; failures come with a shortest witness string. C04-TOKENS: no blank byte (space, tab, CR, LF) is ever appended to a name, qualifier, version number, architecture or profile name; no architecture with an empty name, no empty profile, profile group or relation is stored. C04-OPS: the operators that can be stored are exactly = << <= >= >>, the set SatisfiedBy decides. C04-ERR: every error in the parser's call tree is returned; Parse returns no value with an error. C04-TOTAL: no panic and no loop that stops consuming input is reachable."
 	rp.NotDecided = "that every accepted valid field yields exactly the denoted AST (the effect abstraction tracks which token a byte goes to only through the TOKENS events, not the full tree); bytes >= 0x80 and NUL are in the alphabet but not in the grammar."
 	rp.Trusted = []string{"go/types, go/ssa", "soundness of the lazy-tape abstraction (tape bytes only compared with constants; cursor only moves forward: checked per run)", "the Policy 7.1 languages built in c04.go"}
 	pm, why := buildParserModel(p)
-	lang := rp.Rule("C04-LANG", "accepted language contains the Policy grammar and excludes the malformed classes", 13)
+	lang := rp.Rule("C04-LANG", "accepted language contains the Policy grammar and excludes the malformed classes", 14)
 	parse := p.Func("dependency", "Parse")
 	if parse == nil {
 		lang.undecided("dependency.Parse", "", "function not found")
@@ -625,6 +626,22 @@ func checkC04(p *Prog, rp *Report) {
 	}
 
 	c04Err(p, rp, parse)
+	if rp.Tier == "thorough" {
+		// cross-check of the transition system by plain interpretation on exact fields
+		fam := rp.Rule("C04-FAMILY", "Parse on a family of exact fields agrees with the languages and invariants", 1)
+		b := parserBounded(p)
+		if b.undecided != "" {
+			fam.undecided("dependency.Parse", pos, b.undecided)
+		} else {
+			var all []string
+			for _, v := range b.langBy {
+				all = append(all, v...)
+			}
+			all = append(append(append(all, b.tokens...), b.total...), b.noempty...)
+			sort.Strings(all)
+			fillProblems(fam, "dependency.Parse", pos, all, fmt.Sprintf("%d well-formed and %d malformed fields generated from the grammar, %d short strings: verdicts, parsed trees and termination as required", b.nValid, b.nMal, b.nSweep))
+		}
+	}
 }
 
 func c04Err(p *Prog, rp *Report, parse *ssa.Function) {
